@@ -14,7 +14,9 @@ Case header   mode policy cap nprod ...        policy 0 queue, 1 burst, 2 confla
               3 idx err source_evaluated pending flag
               4 idx err valid flag | 6 idx err pending flag valid | 9 idx valid flag | 99 idx
               13 idx / 14 idx / 15 idx   cycle / stop while not started, start while started (ignored by the harness)
- mode 2 (free running, acceptor):  2 policy cap nprod nmsg blocking_pct pace stop_mode seed
+ mode 2 (free running, acceptor):  2 policy cap nprod nmsg blocking_pct pace stop_mode seed clock
+   clock 0: the real wall clock; g > 0: a virtual wall clock = the real one rounded down to g microseconds;
+   -1: a frozen virtual wall clock (installed through include/hgraph/util/verif_hook.h)
    history    23 stop_b stop_r stop_e cycles stalled run_error stop_mode
               20 p k v blocking result b a          a send call bracketed by tickets b < a
               21 t cycle_ticket sink_ticket v...    a delivery
@@ -29,7 +31,7 @@ MODEL_FAMILY = "pushq"
 PIPE = True
 BUDGET = {"quick": 420, "thorough": 4000}
 
-KINDS = {"crash", "not_prefix", "duplicate", "time_not_increasing", "multi_delivery", "over_capacity",
+KINDS = {"crash", "not_prefix", "duplicate", "time_not_increasing", "delivery_time_not_increasing", "multi_delivery", "over_capacity",
          "unjustified_refusal", "blocking_failed_running", "accepted_after_stop", "lost_wakeup", "no_delivery",
          "stuck_sender", "exception", "confl_not_latest", "fifo", "stall", "undelivered", "malformed_history"}
 PROP_KINDS = {"C16": KINDS}
@@ -94,16 +96,20 @@ def _gen_seq(rng, tier):
 #    by a pop between the notify_one and the woken waiter's resumption
 #  * unbounded / roomy sources under contention: every try_send must be accepted
 DIRECTED = [
-    (1, 1, 4, 100, 0), (1, 2, 6, 100, 0), (1, 1, 3, 100, 1), (1, 3, 8, 100, 0), (1, 2, 4, 60, 0),
-    (0, 1, 4, 50, 0), (0, 1, 6, 60, 0), (0, 2, 4, 30, 0), (0, 1, 3, 100, 0), (0, 2, 8, 60, 1),
-    (0, 0, 8, 0, 0), (0, 0, 4, 0, 0), (1, 0, 6, 0, 0), (2, 0, 6, 0, 0), (0, 0, 6, 30, 0), (0, 0, 8, 0, 1),
+    (1, 1, 4, 100, 0, 0), (1, 2, 6, 100, 0, 0), (1, 1, 3, 100, 1, 0), (1, 3, 8, 100, 0, 0), (1, 2, 4, 60, 0, 0),
+    (0, 1, 4, 50, 0, 0), (0, 1, 6, 60, 0, 0), (0, 2, 4, 30, 0, 0), (0, 1, 3, 100, 0, 0), (0, 2, 8, 60, 1, 0),
+    (0, 0, 8, 0, 0, 0), (0, 0, 4, 0, 0, 0), (1, 0, 6, 0, 0, 0), (2, 0, 6, 0, 0, 0), (0, 0, 6, 30, 0, 0), (0, 0, 8, 0, 1, 0),
+    # a wall clock that does not move (coarse granule in microseconds, or frozen = -1) under a backlog: the
+    # loop runs consecutive no-wait cycles at one wall reading; engine times must still strictly increase
+    (0, 0, 4, 0, 0, 1000), (0, 0, 2, 0, 0, -1), (0, 2, 4, 100, 0, 50000), (1, 0, 4, 0, 0, 1000), (0, 3, 3, 60, 0, -1),
+    (0, 0, 1, 0, 0, 20000), (2, 0, 4, 0, 0, 1000), (0, 1, 4, 100, 0, 1000), (0, 0, 6, 0, 0, 1000000),
 ]
 
 
 def _gen_stress(rng, tier):
     total = rng.choice([40, 120, 300, 600]) if tier == "quick" else rng.choice([100, 400, 1000, 2000])
-    if rng.random() < 0.5:
-        policy, cap, nprod, block, pace = rng.choice(DIRECTED)
+    if rng.random() < 0.55:
+        policy, cap, nprod, block, pace, clock = rng.choice(DIRECTED)
         total = max(total, 300)
     else:
         policy = rng.choice([0, 0, 0, 1, 2])
@@ -111,9 +117,10 @@ def _gen_stress(rng, tier):
         nprod = rng.choice([1, 2, 2, 3, 4, 4, 6, 8])
         block = rng.choice([0, 0, 30, 60, 100])
         pace = rng.choice([0, 0, 1, 2, 3])
+        clock = rng.choice([0, 0, 0, 1000, 50000, -1])
     nmsg = max(1, total // nprod)
     stop_mode = 1 if rng.random() < 0.2 else 0
-    return [[2, policy, cap, nprod, nmsg, block, pace, stop_mode, rng.randint(1, 1 << 30)]]
+    return [[2, policy, cap, nprod, nmsg, block, pace, stop_mode, rng.randint(1, 1 << 30), clock]]
 
 
 def gen(rng, tier, prop):
@@ -346,9 +353,16 @@ def _oracle_stress(case, out):
             bad("not_prefix", "value %d delivered but %d, accepted entirely before it, never was" % (y["v"], run_undelivered["v"]))
             break
     # cycles
+    # each delivery in its own engine cycle: engine times of successive delivery cycles strictly increase
+    nrep = sum(1 for d0, d1 in zip(delivs, delivs[1:]) if not d0["t"] < d1["t"])
     for d0, d1 in zip(delivs, delivs[1:]):
-        if not d0["t"] < d1["t"] or not d0["cs"] < d1["cs"]:
-            bad("time_not_increasing", "deliveries %s then %s" % (d0, d1))
+        if not d0["t"] < d1["t"]:
+            bad("delivery_time_not_increasing", "delivery %s at engine time %d, the next one %s at %d (%d such pairs of %d)"
+                % (d0["vals"][:3], d0["t"], d1["vals"][:3], d1["t"], nrep, len(delivs)))
+            break
+    for d0, d1 in zip(delivs, delivs[1:]):
+        if not d0["cs"] < d1["cs"]:
+            bad("malformed_history", "cycle tickets not increasing: %s then %s" % (d0, d1))
             break
     for d in delivs:
         if (policy != 1 and len(d["vals"]) != 1) or not d["vals"] or not d["cs"] < d["s"]:
@@ -494,6 +508,10 @@ def stats(case, impl_out):
         add("stress_samples", len(h["samples"]))
         if case[0][7] == 1:
             add("stress_stop_midstream")
+        if len(case[0]) > 9 and case[0][9] != 0:
+            add("stress_virtual_clock_frozen" if case[0][9] < 0 else "stress_virtual_clock_coarse")
+            ts = [d["t"] for d in h["delivs"]]
+            add("stress_min_td_steps", sum(1 for a, b in zip(ts, ts[1:]) if b == a + 1))
     return st
 
 
